@@ -243,27 +243,25 @@ def mirrors (m : Method) (s : Schema) : Bool :=
 * nothing in force, no method: fine;
 * a non-deprecated schema in force: a live (non-stub) method must resolve and mirror it — unless the whole
   domain is a documented ungenerated domain;
-* a deprecated schema in force: either nothing resolves, or a raising stub does — or the cell is one of the
-  `listed` cells of finding C17-F1, where an older live definition is still inherited;
+* a deprecated schema in force: nothing callable — no method resolves, or a raising stub does (what `opgen`
+  emits since 52a48cf to shadow the inherited definition of the last live version);
 * a method without a schema in force: never. -/
-def cellOk (ungen listed : Bool) : Option Schema → Option Method → Bool
+def cellOk (ungen : Bool) : Option Schema → Option Method → Bool
   | none, none => true
-  | some s, some m => if s.deprecated then m.stub || listed else !m.stub && mirrors m s
+  | some s, some m => if s.deprecated then m.stub else !m.stub && mirrors m s
   | some s, none => s.deprecated || ungen
   | none, some _ => false
 
-def rowOk (schemas : List Schema) (classes : List Cls) (ungen : List Nat) (depLive : List (Nat × Nat × Nat))
-    (d n : Nat) : Bool :=
+def rowOk (schemas : List Schema) (classes : List Cls) (ungen : List Nat) (d n : Nat) : Bool :=
   selectS d n schemas [] fun S =>
   selectM d n classes [] fun M =>
   classes.all fun c =>
     c.domain != d ||
-      cellOk (ungen.contains d) (depLive.contains (d, c.version, n)) (pick Schema.since c.version S none)
+      cellOk (ungen.contains d) (pick Schema.since c.version S none)
         ((pick Prod.fst c.version M none).map Prod.snd)
 
-def gridOk (schemas : List Schema) (classes : List Cls) (ungen : List Nat) (depLive : List (Nat × Nat × Nat))
-    (d : Nat) (ns : List Nat) : Bool :=
-  ns.all (rowOk schemas classes ungen depLive d)
+def gridOk (schemas : List Schema) (classes : List Cls) (ungen : List Nat) (d : Nat) (ns : List Nat) : Bool :=
+  ns.all (rowOk schemas classes ungen d)
 
 /-- membership of (domain, name) in the chunks -/
 def inGrid (chunks : List (Nat × List Nat)) (d n : Nat) : Bool :=
@@ -293,14 +291,6 @@ def exportsOk (classes : List Cls) (exports : List Export) : Bool :=
   classes.all (fun c => exports.any (fun e =>
     c.name == e.cls && c.domain == e.domain && c.version == e.version)) &&
   exports.length == classes.length
-
-/-- a listed cell of C17-F1 is what it says: deprecated schema in force, a live inherited method, which binds
-another schema than the one dynamic lookup answers with -/
-def depLiveWitness (schemas : List Schema) (classes : List Cls) (d N n : Nat) : Bool :=
-  match lookup schemas d N n, resolve classes d N n with
-  | some s, some m =>
-    s.deprecated && !m.stub && !(m.call.1 == s.name && m.call.2.1 == s.since && m.call.2.2 == s.domain)
-  | _, _ => false
 
 /-- static and dynamic resolution of one name agree: both absent; or the same live schema; or — for a schema
 marked deprecated — the class offers nothing callable (no method, or a raising stub) -/
